@@ -174,6 +174,17 @@ def migrateAll (s : St) : St :=
     let n := resolve s e.obj
     if n = dflt then s else mgrMigrate s e.obj dflt n) s
 
+/-- the same with MultiQuotaTree ON and the case's quotas (names >= 3) in a tree of their own: the target lives in
+    another manager, so the pod is removed from the default manager (OnPodDelete) and ADDED to the other one
+    (OnPodAdd with the cached object: the assigned flag is re-derived from NodeName/phase, not carried over).
+    Everything else of the plugin behaves as in the single-manager model (a cross-tree OnPodUpdate is
+    OnPodDelete + OnPodAdd = the `oq ≠ nq` branch of core OnPodUpdate).  Not covered by the theorems. -/
+def migrateAllMT (s : St) : St :=
+  (s.cache.filter (fun e => e.q == dflt)).foldl (fun s e =>
+    let n := resolve s e.obj
+    if n = dflt then s else
+    if n < 3 then mgrMigrate s e.obj dflt n else mgrPodAdd (mgrPodDelete s dflt e.obj) n e.obj) s
+
 def onPodAdd (s : St) (p : PodObj) : St := mgrPodAdd s (resolve s p) p
 
 def onPodUpdate (s : St) (old new : PodObj) : St :=
@@ -265,6 +276,7 @@ structure Drv where
   fresh : St := {}
   liveOps : List Op := []      -- everything applied to the live plugin (for `quota hyp`)
   freshOps : List Op := []     -- everything delivered to the fresh plugin since `quota fresh`
+  multi : Bool := false        -- `quota mode 1`: MultiQuotaTree on, the case's quotas in their own tree
   out : List String := []
 
 def Drv.bad (d : Drv) : Drv := { d with out := d.out ++ ["bad-op"] }
